@@ -324,6 +324,25 @@ let pyeq_cmd = function
   | [a; b] -> pb (py_eq (to_pvalue a) (to_pvalue b))
   | _ -> failwith "pyeq args"
 
+(* ---- C02: token-level operator tables ---- *)
+let to_assoc = function
+  | A "prefix" -> APrefix | A "left" -> ALeft | A "right" -> ARight | A "infix" -> AInfix | A "postfix" -> APostfix
+  | _ -> failwith "assoc"
+let to_tok = function L [A "d"; v] -> TOpd (to_nat v) | L [A "o"; n] -> TOp (to_nat n) | _ -> failwith "tok"
+let rec ptree = function
+  | Opd v -> "(d " ^ pn v ^ ")"
+  | Pre (o, t) -> "(pre " ^ pn o ^ " " ^ ptree t ^ ")"
+  | Post (t, o) -> "(post " ^ ptree t ^ " " ^ pn o ^ ")"
+  | Inf (l, o, r) -> "(inf " ^ ptree l ^ " " ^ pn o ^ " " ^ ptree r ^ ")"
+let pres = function Some (t, e) -> "(" ^ ptree t ^ " " ^ pn e ^ ")" | None -> "none"
+let optable_cmd = function
+  | [tb; inputs] ->
+    let tb = to_list (function L [a; names] -> (to_assoc a, to_list to_nat names) | _ -> failwith "row") tb in
+    String.concat "|" (List.map (fun w -> let toks = to_list to_tok w in
+                                         pres (loop tb toks) ^ "\t" ^ pres (pratt tb toks))
+                         (match inputs with L l -> l | _ -> failwith "inputs"))
+  | _ -> failwith "optable args"
+
 (* flags of every node, preorder *)
 let rec children = function
   | Seq es | Choice es | Skip es | Longest es -> es
@@ -350,6 +369,7 @@ let dispatch = function
   | L (A "traverse" :: args) -> traverse_cmd args
   | L (A "transform" :: args) -> transform_cmd args
   | L (A "pyeq" :: args) -> pyeq_cmd args
+  | L (A "optable" :: args) -> optable_cmd args
   | _ -> failwith "unknown command"
 
 let () =
